@@ -1,29 +1,93 @@
 """C07 - cmp is a total preorder over mixed types; sort / dictable.sort follow it stably."""
 import datetime, itertools
 import numpy as np
+import pandas as pd
 from .. import proto
-from ..proto import enc
 from ..engine import Finding
 
 ID = 'C07'
 TITLE = 'cmp is a total preorder over mixed types; sort/dictable.sort follow it stably'
-LEAN_FILES = ['Basic', 'Cmp', 'Sort', 'Tri', 'CmpLemmas', 'C07']
+LEAN_FILES = ['Basic', 'Cmp', 'Sort', 'Native', 'TableBasic', 'SortTable', 'CmpDriver', 'Tri', 'CmpLemmas', 'NativeLemmas', 'C07']
 RULE = ('distinct protocol lines (a cmp pair, a list handed to sort, a key column handed to dictable.sort) on which the '
         'implementation returned a value; pairs of identical atoms and empty lists are not counted')
 TRUSTED = ['correspondence harness (pv.engine, pv.proto) and generators of pv.props.c07',
            'Lean driver parser/printer (PygModel/Basic.lean, CmpDriver.lean)']
 ASSUMPTIONS = ['CPython: str(type(x)) names, native < on str/float/datetime/bool, sorted() is a stable sort determined by its comparison outcomes',
-               'numpy scalars / datetime.date are normalised by as_primitive to the python values the wire format identifies them with',
+               'numpy numbers / bools / datetime.date are normalised by as_primitive to the python values the wire format identifies them with; '
+               'pd.Timestamp and np.str_ are NOT normalised (as_primitive keeps them): they have their own wire spellings TS: / NS: so that the '
+               'implementation sees the real objects; the model reads TS: as the datetime cell (cmp ranks a Timestamp with the datetimes since fix 0aa1132); np.str_ has no model cell '
+               '(cmp ranks it apart from str, pinned by the repository test_cmp) and takes part in the implementation-only laws',
+               'the op `native` compares the as_primitive images natively (these are the values sort() hands to sorted() as keys)',
                'object identity (x is y shortcut) is not modelled; fresh and shared NaN objects are both generated']
 
 D = datetime.datetime
+TS = pd.Timestamp
 
 
-def universe():
+# ---------------------------------------------------------------- wire spellings local to C07
+# proto.enc writes every datetime subclass as T: and every str subclass as S:, which would hand the implementation a plain
+# datetime / str where the generator meant a pd.Timestamp / np.str_ (review s2, C07 2.B).  C07 keeps the two apart on the wire:
+# TS:<us> and NS:<hex>; the Lean driver (CmpDriver.normSexp) reads them as T: / S:.
+
+def enc(v):
+    if isinstance(v, pd.Timestamp):
+        return 'TS:%d' % proto.dt2us(v.to_pydatetime().replace(tzinfo=None))
+    if isinstance(v, np.str_):
+        return 'NS:' + proto.hexs(str(v))
+    if isinstance(v, list):
+        return '(L' + ''.join(' ' + enc(x) for x in v) + ')'
+    if isinstance(v, tuple):
+        return '(T' + ''.join(' ' + enc(x) for x in v) + ')'
+    if isinstance(v, dict):
+        return '(D' + ''.join(' (%s %s)' % (proto.hexs(str(k)), enc(x)) for k, x in v.items()) + ')'
+    return proto.enc(v)
+
+
+def dec(x):
+    if isinstance(x, str):
+        if x.startswith('TS:'):
+            return pd.Timestamp(proto.us2dt(int(x[3:])))
+        if x.startswith('NS:'):
+            return np.str_(proto.unhex(x[3:]))
+        return proto.dec_cell(x)
+    head, rest = x[0], x[1:]
+    if head == 'L':
+        return [dec(y) for y in rest]
+    if head == 'T':
+        return tuple(dec(y) for y in rest)
+    if head == 'D':
+        return {proto.unhex(kv[0]): dec(kv[1]) for kv in rest}
+    raise ValueError('bad node head %r' % (head,))
+
+
+def _plain(x):
+    """parsed sexp with the C07-only spellings rewritten to the shared ones (for canonical comparison)"""
+    if isinstance(x, str):
+        return 'T:' + x[3:] if x.startswith('TS:') else 'S:' + x[3:] if x.startswith('NS:') else x
+    return [_plain(y) for y in x]
+
+
+def same_reply(r1, r2):
+    if r1 == r2:
+        return True
+    a, b = r1.split(None, 1), r2.split(None, 1)
+    if a[0] != b[0] or a[0] != 'ok' or len(a) != 2 or len(b) != 2:
+        return False
+    try:
+        return proto.canon(_plain(proto.parse(a[1]))) == proto.canon(_plain(proto.parse(b[1])))
+    except Exception:
+        return False
+
+
+NP_STRS = [np.str_('a'), np.str_('b')]        # cmp ranks np.str_ by its own type name (the repository's test_cmp pins it): no model cell, laws only
+
+
+def universe(laws=False):
     nan = float('nan')
-    return [None, True, False, 0, 1, -1, 2, 1.0, 2.5, -0.25, float('nan'), float('nan'), np.nan, float('inf'), float('-inf'),
+    return (NP_STRS if laws else []) + [None, True, False, 0, 1, -1, 2, 1.0, 2.5, -0.25, float('nan'), float('nan'), np.nan, float('inf'), float('-inf'),
             '', 'a', 'b', 'ab', 'B', D(2020, 1, 1), D(2020, 1, 2, 3), datetime.date(2020, 1, 1), np.int64(1), np.float64(1.0),
             np.float64('nan'), np.bool_(True), np.float64(2.5), 2 ** 53, 2 ** 53 + 1, float(2 ** 53),
+            np.float64(2 ** 53), np.int64(2 ** 53 + 1), TS('2020-01-01'), TS('2020-01-02 03:00'),
             (), (1,), (1, 2), (1.0, 2), ('a', 1), (None,), (nan,), (2, 1), (1, 'a'), (True,), (1, (2, 3)), (1, (2, 4)), (1, [2, 3]),
             [], [1], [1, 2], [2, 1], [[1], [2]], [None, 'a'], [nan, 1], [1, nan],
             {}, {'a': 1}, {'a': 1, 'b': 2}, {'b': 2, 'a': 1}, {'a': 1, 'c': 2}, {'a': 2}, {'a': nan}, {'a': [1, 2]}, {'a': 1.0},
@@ -31,12 +95,37 @@ def universe():
 
 
 SCALARS = [None, 0, 1, -1, 2, 3, 1.0, 2.5, -0.25, 0.5, 'a', 'b', 'ab', '', D(2020, 1, 1), D(2020, 1, 2), D(2019, 5, 5, 12)]
+# the other spellings of "ints, finite floats, strings, datetimes" (review s2, C07 2.A/2.B): numpy numbers around the float64
+# precision boundary (python compares int with float exactly, numpy through float64), pd.Timestamp (a datetime), np.str_ (a str)
+NP_SCALARS = [2 ** 53, 2 ** 53 + 1, float(2 ** 53), np.float64(2 ** 53), np.int64(2 ** 53 + 1), np.int64(2 ** 53), np.int64(1), np.float64(2.5),
+              np.float64(1.0), np.int64(2), TS('2020-01-02'), TS('2020-01-01'), TS('2019-05-05 12:00'), D(2020, 1, 3), 'c']
+BIG = [2 ** 53, 2 ** 53 + 1, 2 ** 53 + 2, float(2 ** 53), np.float64(2 ** 53), np.int64(2 ** 53 + 1), np.int64(2 ** 53), np.float64(2 ** 53 + 2)]
+DATES = [TS('2020-01-02'), TS('2020-01-01'), TS('2019-05-05 12:00'), D(2020, 1, 3), D(2020, 1, 1), D(2020, 1, 2), D(2019, 5, 5, 12)]
+STRS = [np.str_('a'), np.str_('b'), np.str_('ab'), 'a', 'b', 'c', 'ab', '']
 
 
-def rand_scalar(rng, nan_rate=0.12):
+def rand_scalar(rng, nan_rate=0.12, pool=None):
     if rng.random() < nan_rate:
         return float('nan') if rng.random() < 0.7 else np.nan
-    return rng.choice(SCALARS)
+    return rng.choice(pool or SCALARS)
+
+
+def rand_pool(rng, laws=False):
+    """scalar pool of one sort case: mostly the plain python scalars; otherwise one with numpy / pandas spellings mixed in, or a
+    same-kind pool (only then does sorted() stay on its native path with those spellings present).  np.str_ has no cell in the model
+    (cmp ranks it between list and str): it is drawn for the implementation-only laws."""
+    r = rng.random()
+    if r >= 0.90 and not laws:
+        return DATES
+    if r < 0.55:
+        return SCALARS
+    if r < 0.70:
+        return SCALARS + NP_SCALARS
+    if r < 0.80:
+        return BIG
+    if r < 0.90:
+        return DATES
+    return STRS
 
 
 def rand_val(rng, depth):
@@ -70,22 +159,31 @@ def generate(rng, tier):
     n = 400 if tier == 'quick' else 12000
     for _ in range(n):
         k = rng.choice([0, 1, 2, 3, 5, 8, 12])
+        pool = rand_pool(rng)
+        nr = 0.12 if pool is SCALARS else 0.04
         if rng.random() < 0.6:
-            xs = [rand_scalar(rng) for _ in range(k)]
+            xs = [rand_scalar(rng, nr, pool) for _ in range(k)]
         else:
             w = rng.choice([1, 2, 3])
-            xs = [tuple(rand_scalar(rng) for _ in range(w)) for _ in range(k)]
-        yield dict(tag='sort', lines=['(cmp sort %s)' % enc(xs)])
+            xs = [tuple(rand_scalar(rng, nr, pool) for _ in range(w)) for _ in range(k)]
+        yield dict(tag='sort' if pool is SCALARS else 'sort-numpy-pandas-spellings', lines=['(cmp sort %s)' % enc(xs)])
     # dictable.sort by 1..2 key columns
     n = 300 if tier == 'quick' else 8000
     for _ in range(n):
         k = rng.choice([1, 2, 3, 4, 6, 9, 20])
         w = rng.choice([1, 1, 2])
-        pool = [rand_scalar(rng) for _ in range(rng.choice([1, 2, 3, 5]))]
+        src = rand_pool(rng)
+        pool = [rand_scalar(rng, 0.12 if src is SCALARS else 0.04, src) for _ in range(rng.choice([1, 2, 3, 5]))]
         if rng.random() < 0.15:
             pool += [float('inf'), float('-inf')]      # since fix e767c32 the infinities keep their native place under cmp
         keys = [tuple(rng.choice(pool) for _ in range(w)) for _ in range(k)]
-        yield dict(tag='dictable.sort', lines=['(cmp sortidx %s)' % enc(keys)])
+        if src is SCALARS and rng.random() < 0.3:
+            # (plain python scalars only: this form compares ROW DICTS, whose == on numpy numbers is numpy's inexact one)
+            # d.sort([k0, k1]): the documented "list of keys" form; flag 1 = the columns are named so that the given order is NOT
+            # the alphabetical order of the names
+            yield dict(tag='dictable.sort-listform', lines=['(cmp sortidxl %s %d)' % (enc(keys), rng.choice([0, 1]))])
+        else:
+            yield dict(tag='dictable.sort' if src is SCALARS else 'dictable.sort-numpy-pandas-spellings', lines=['(cmp sortidx %s)' % enc(keys)])
     # dictable.sort by a key FUNCTION of the columns
     for _ in range(120 if tier == 'quick' else 3000):
         k = rng.choice([1, 2, 3, 4, 6, 9])
@@ -94,7 +192,8 @@ def generate(rng, tier):
         yield dict(tag='dictable.sort-by-function', lines=['(cmp sortfn %s %s)' % (enc(keys), rng.choice(['swap', 'first', 'pair']))])
     # python's native order against the reference model `Cell.native` / `nativeArr` (NaN excluded: not an order)
     NS = [None, True, False, 0, 1, -1, 2, 1.0, 2.5, -0.25, float('inf'), float('-inf'), '', 'a', 'b', 'ab', D(2020, 1, 1), D(2020, 1, 2, 3),
-          2 ** 53, 2 ** 53 + 1, float(2 ** 53)]
+          2 ** 53, 2 ** 53 + 1, float(2 ** 53), np.float64(2 ** 53), np.int64(2 ** 53 + 1), np.int64(1), np.float64(2.5), datetime.date(2020, 1, 1),
+          TS('2020-01-01'), TS('2020-01-02 03:00')]
     for x in NS:
         for y in NS:
             yield dict(tag='native-scalars', lines=['(cmp native %s %s)' % (enc(x), enc(y))])
@@ -105,6 +204,23 @@ def generate(rng, tier):
         if rng.random() < 0.15:
             ys = ys[:-1] if ys and rng.random() < 0.5 else ys + (rng.choice(NS),)
         yield dict(tag='native-tuples', lines=['(cmp native %s %s)' % (enc(xs), enc(ys))])
+    # ... and on the decorated ((k0, .., kn), i) tuples dictable.sort hands to sorted() (nativeKeyId)
+    for _ in range(200 if tier == 'quick' else 4000):
+        w = rng.choice([1, 2, 3])
+        xs = tuple(rng.choice(NS) for _ in range(w))
+        ys = tuple(rng.choice(NS) if rng.random() < 0.4 else xs[i] for i in range(w))
+        i, j = rng.sample(range(6), 2)
+        yield dict(tag='native-keyid', lines=['(cmp native %s %s)' % (enc((xs, i)), enc((ys, j)))])
+    # dictable.sort on a whole table: key columns AND the other columns are gathered (Table.sortBy); also an absent key column
+    for _ in range(150 if tier == 'quick' else 4000):
+        k = rng.choice([0, 1, 2, 3, 5, 8])
+        pool = [rand_scalar(rng) for _ in range(rng.choice([1, 2, 3, 5]))]
+        names = rng.sample(['a', 'b', 'c', 'd'], rng.choice([1, 2, 3, 4]))
+        t = {c: [rng.choice(pool) for _ in range(k)] for c in names}
+        by = rng.sample(names, min(len(names), rng.choice([1, 1, 2]))) if rng.random() < 0.9 else [names[0], 'zz']
+        if rng.random() < 0.05:
+            by = []
+        yield dict(tag='dictable.sort-table', lines=['(cmp sorttable %s %s)' % (enc_tbl(t), enc(by))])
     n = 100 if tier == 'quick' else 3000
     vals = [None, 1, 2, 3, 'a', 'b', 'c', 2.5]
     for _ in range(n):
@@ -117,6 +233,10 @@ def generate(rng, tier):
         k = rng.choice([2, 2, 3, 4, 7])
         rows = [[rng.choice(vals) for _ in range(w)] for _ in range(k)]
         yield dict(tag='dictable.sort-byval', lines=['(cmp byvalidx %s %s)' % (enc(orders), enc(rows))])
+
+
+def enc_tbl(t):
+    return '(D' + ''.join(' (%s %s)' % (proto.hexs(c), enc(list(v))) for c, v in t.items()) + ')'
 
 
 def mutate(rng, x):
@@ -140,25 +260,41 @@ def run_line(state, sx):
     from pyg_base import dictable
     op, args = sx[1], sx[2:]
     if op == 'cmp':
-        return 'ok I:%d' % pyg_base.cmp(proto.dec(args[0]), proto.dec(args[1]))
+        return 'ok I:%d' % pyg_base.cmp(dec(args[0]), dec(args[1]))
     if op == 'native':
-        a, b = proto.dec(args[0]), proto.dec(args[1])
+        # the native comparison as sort() performs it: on the as_primitive images (numpy numbers compare python ints through float64)
+        a, b = pyg_base.as_primitive(dec(args[0])), pyg_base.as_primitive(dec(args[1]))
         return 'ok I:%d' % (-1 if a < b else 1 if a > b else 0)
     if op == 'sort':
-        return 'ok ' + enc(pyg_base.sort(proto.dec(args[0])))
-    if op == 'sortidx':
-        keys = proto.dec(args[0])
+        return 'ok ' + enc(pyg_base.sort(dec(args[0])))
+    if op in ('sortidx', 'sortidxl'):
+        keys = dec(args[0])
         w = len(keys[0]) if keys else 1
-        cols = {'k%d' % j: [k[j] for k in keys] for j in range(w)}
+        names = ['k%d' % j for j in range(w)]
+        if op == 'sortidxl' and args[1] == '1':
+            names = names[::-1]             # first key column gets the alphabetically LAST name
+        cols = {names[j]: [k[j] for k in keys] for j in range(w)}
         d = dictable(dict(cols, i=list(range(len(keys)))))
-        by = ['k%d' % j for j in range(w)]
-        res = d.sort(*by)
-        res2 = res.sort(*by)
+        if op == 'sortidxl':
+            res = d.sort(list(names))
+            res2 = res.sort(list(names))
+        else:
+            res = d.sort(*names)
+            res2 = res.sort(*names)
         if list(res2['i']) != list(res['i']):
             raise AssertionError('dictable.sort not idempotent')
         return 'ok ' + enc(list(res['i']))
+    if op == 'sorttable':
+        t, by = dec(args[0]), dec(args[1])
+        d = dictable(t) if t else dictable()
+        res = d.sort(*by)
+        if res is d:
+            raise AssertionError('dictable.sort returned its receiver')
+        if dict(d) != t and t:
+            raise AssertionError('dictable.sort modified its receiver')
+        return 'ok ' + enc_tbl({c: list(res[c]) for c in res.keys()})
     if op == 'sortfn':
-        keys = proto.dec(args[0])
+        keys = dec(args[0])
         fn = {'swap': lambda k0, k1: (k1, k0), 'first': lambda k0: k0, 'pair': lambda k0, k1: [k0, k1]}[args[1]]
         d = dictable(dict(k0=[k[0] for k in keys], k1=[k[1] for k in keys], i=list(range(len(keys)))))
         res = d.sort(fn)
@@ -166,7 +302,7 @@ def run_line(state, sx):
             raise AssertionError('dictable.sort not idempotent')
         return 'ok ' + enc(list(res['i']))
     if op == 'byvalidx':
-        orders, rows = proto.dec(args[0]), proto.dec(args[1])
+        orders, rows = dec(args[0]), dec(args[1])
         w = len(orders)
         cols = {'k%d' % j: [r[j] for r in rows] for j in range(w)}
         d = dictable(dict(cols, i=list(range(len(rows)))))
@@ -176,7 +312,13 @@ def run_line(state, sx):
 
 
 def compare(case, i, line, ir, mr):
-    if proto.same_reply(ir, mr):
+    if same_reply(ir, mr):
+        if ('TS:' in line or 'NS:' in line or 'NF:' in line or 'NI:' in line) and (line.startswith('(cmp sort ') or line.startswith('(cmp sortidx')):
+            # the reply carries positions / cells only: with spellings the model identifies (Timestamp = datetime, numpy = python
+            # number) agreeing with the model does not yet mean "ordered under the implementation's cmp" - evaluate the statement
+            bad = statement_fails(line, ir)
+            if bad:
+                return '%s; implementation %s (as the model), but the implementation\'s own cmp disagrees' % (bad, ir)
         return None
     if line.startswith('(cmp cmp '):
         # the property pins only part of the order; a different value is a divergence unless a law fails (see laws)
@@ -187,9 +329,15 @@ def compare(case, i, line, ir, mr):
         return ('divergence', "python's native comparison gives %s, the reference model Cell.native / nativeArr %s (an assumption about CPython, not a clause of the property)" % (ir, mr))
     # sort / dictable.sort: the model's answer is the unique stable sort under the MODEL's cmp.  Decide the statement with the
     # implementation's own cmp: if the output is a correctly ordered (stable) permutation under it, model and code merely diverge.
+    if line.startswith('(cmp sorttable '):
+        return 'dictable.sort on a table: implementation %s, model (all columns gathered by the stable cmp-sort of the key tuples) %s' % (ir, mr)
     bad = statement_fails(line, ir)
     if bad:
         return '%s; implementation %s, model %s' % (bad, ir, mr)
+    if 'NS:' in line:
+        # a np.str_ has no cell in the model (the driver reads it as the str, cmp ranks it between list and str): the model's answer
+        # is not authoritative here, the statement was just decided with the implementation's own cmp (itself law-checked with np.str_)
+        return None
     return ('divergence', 'implementation %s, model %s (still ordered under the implementation\'s own cmp)' % (ir, mr))
 
 
@@ -198,25 +346,25 @@ def statement_fails(line, ir):
     if not ir.startswith('ok '):
         return 'call failed: ' + ir
     sx = proto.parse(line)
-    out = proto.dec(proto.parse(ir[3:]))
+    out = dec(proto.parse(ir[3:]))
     op = sx[1]
     if op == 'sort':
-        xs = proto.dec(sx[2])
-        cx = sorted(repr(proto.canon(proto.parse(enc(x)))) for x in xs)
-        co = sorted(repr(proto.canon(proto.parse(enc(x)))) for x in out)
+        xs = dec(sx[2])
+        cx = sorted(repr(proto.canon(_plain(proto.parse(enc(x))))) for x in xs)
+        co = sorted(repr(proto.canon(_plain(proto.parse(enc(x))))) for x in out)
         if cx != co:
             return 'sort result is not a permutation of the input'
         if any(pyg_base.cmp(a, b) == 1 for a, b in zip(out, out[1:])):
             return 'sort result is not non-decreasing under cmp'
         return None
-    if op in ('sortidx', 'byvalidx', 'sortfn'):
-        if op == 'sortidx':
-            keys = proto.dec(sx[2])
+    if op in ('sortidx', 'sortidxl', 'byvalidx', 'sortfn'):
+        if op in ('sortidx', 'sortidxl'):
+            keys = dec(sx[2])
         elif op == 'sortfn':
-            ks = proto.dec(sx[2])
+            ks = dec(sx[2])
             keys = [{'swap': lambda k: (k[1], k[0]), 'first': lambda k: k[0], 'pair': lambda k: [k[0], k[1]]}[sx[3]](k) for k in ks]
         else:
-            orders, rows = proto.dec(sx[2]), proto.dec(sx[3])
+            orders, rows = dec(sx[2]), dec(sx[3])
             keys = [[(o.index(x) if x in o else len(o)) for o, x in zip(orders, r)] for r in rows]
         if sorted(out) != list(range(len(keys))):
             return 'dictable.sort result is not a permutation of the rows'
@@ -241,7 +389,7 @@ def laws(rng, tier, ctx):
     """law checks on the implementation alone: antisymmetry on all pairs and transitivity on all triples of the universe;
     sort output is a permutation, non-decreasing under the implementation's own cmp"""
     import pyg_base
-    U = universe()
+    U = universe(laws=True)
     n = len(U)
     M = [[None] * n for _ in range(n)]
     count = 0
@@ -283,7 +431,7 @@ def laws(rng, tier, ctx):
             if fx != fx or fy != fy or fx in (float('inf'), float('-inf')) or fy in (float('inf'), float('-inf')):
                 continue
             c = pyg_base.cmp(x, y)
-            want = 0 if x == y else None
+            want = 0 if _exact(x) == _exact(y) else None      # not x == y: numpy's == goes through float64
             if want == 0 and c != 0:
                 yield Finding('violation', dict(tag='law-numeq', lines=['(cmp cmp %s %s)' % (enc(x), enc(y))]),
                               'numerically equal numbers %r (%s) and %r (%s) compare %s' % (x, type(x).__name__, y, type(y).__name__, c))
@@ -318,11 +466,12 @@ def laws(rng, tier, ctx):
     m = 300 if tier == 'quick' else 5000
     for _ in range(m):
         k = rng.choice([2, 3, 5, 8, 12])
+        pool = rand_pool(rng, laws=True)
         if rng.random() < 0.6:
-            xs = [rand_scalar(rng, 0.2) for _ in range(k)]
+            xs = [rand_scalar(rng, 0.2 if pool is SCALARS else 0.05, pool) for _ in range(k)]
         else:
             w = rng.choice([1, 2, 3])
-            xs = [tuple(rand_scalar(rng, 0.15) for _ in range(w)) for _ in range(k)]
+            xs = [tuple(rand_scalar(rng, 0.15 if pool is SCALARS else 0.05, pool) for _ in range(w)) for _ in range(k)]
         count += 1
         case = dict(tag='law-sort', lines=['(cmp sort %s)' % enc(xs)])
         try:
@@ -337,8 +486,35 @@ def laws(rng, tier, ctx):
     yield count
 
 
+def _exact(v):
+    from fractions import Fraction
+    return Fraction(int(v)) if isinstance(v, (int, np.integer)) else Fraction(float(v))
+
+
 def _is(tag):
     return lambda f: f.case.get('tag', '').endswith(tag)
 
 
-MATCHERS = {}
+def _listform_sorts_by_column_name(f):
+    """K4: `d.sort([k0, k1, ...])` (ONE list argument) orders the rows by the key columns taken in the alphabetical order of their
+    NAMES, not in the order given.  Recognised only when: the case is a list-form sort, its columns were named against the alphabet
+    (flag 1), there are >= 2 key columns, and the implementation's answer IS the stable cmp-sort by the columns in name order."""
+    import pyg_base
+    lines = f.case.get('lines', [])
+    if len(lines) != 1 or not lines[0].startswith('(cmp sortidxl '):
+        return False
+    sx = proto.parse(lines[0])
+    if sx[3] != '1':
+        return False
+    keys = dec(sx[2])
+    if not keys or len(keys[0]) < 2:
+        return False
+    ir = (f.impl or [''])[0]
+    if not ir.startswith('ok '):
+        return False
+    out = dec(proto.parse(ir[3:]))
+    want = sorted(range(len(keys)), key=lambda i: pyg_base.Cmp(tuple(reversed(keys[i]))))
+    return list(out) == want
+
+
+MATCHERS = {'listform_sorts_by_column_name': _listform_sorts_by_column_name}
